@@ -6,7 +6,7 @@ patch="$1"; shift
 cd /verif
 git -C /repo diff --quiet || { echo "/repo is not clean"; exit 2; }
 git -C /repo apply "$patch" || { echo "patch does not apply"; exit 2; }
-trap 'git -C /repo checkout -- . ; git -C /repo clean -fdq src' EXIT
+trap 'git -C /repo checkout -- . ; git -C /repo clean -fdq src; python3 /verif/tools/mkcopy.py >/dev/null' EXIT
 for p in "$@"; do
   out=$(./check.sh "$p" quick 2>&1); rc=$?
   echo "[$p rc=$rc] $(echo "$out" | head -3 | cut -c1-260 | tr '\n' ' ')"
